@@ -87,7 +87,7 @@ def check(inp):
     off.update(dict((k, False) for k in inp["opts"]))
     brief, ret = inp.get("brief", "one line"), inp.get("ret", "a value")
     try:
-        a = run(off, brief, ret, "", inp.get("version_off", True))
+        a = run(off, brief, ret, inp.get("perdecl_off", ""), inp.get("version_off", True))
         b = run(on, brief, ret, inp.get("perdecl", ""), inp.get("version_on", True))
     except (RuntimeError, SystemExit) as e:
         return None
@@ -96,12 +96,45 @@ def check(inp):
     for n in a:
         if a[n] != b[n]:
             diff = [x for x in b[n] if x not in a[n]][:2] + [x for x in a[n] if x not in b[n]][:2]
-            return "%s differs after comment removal when %s is switched on: %r" % (n, inp["opts"], diff)
+            if not diff:
+                k = next((i for i in range(min(len(a[n]), len(b[n]))) if a[n][i] != b[n][i]), min(len(a[n]), len(b[n])))
+                diff = ["line %d: off %r / on %r" % (k + 1, (a[n] + [""])[k], (b[n] + [""])[k])]
+            return "%s differs after comment removal when %s is switched on: %r" % (n, inp.get("what") or inp["opts"], diff)
     return None
+
+
+PERDECL = [
+    # overloads with different preprocessor conditions: a generic interface whose members are guarded one by one
+    ["- decl: void process(int v)\n  cpp_if: if defined(HAVE_INT)\n", "- decl: void process(double v)\n",
+     "- decl: void process(const char *v)\n  cpp_if: if defined(HAVE_STR)\n"],
+    # default arguments (generated overloads) and a struct
+    ["- decl: int scale(int a, int b = 1, double c = 2.0)\n", "- decl: struct Pt { int x; double y; }\n",
+     "- decl: double norm(const Pt *p)\n"],
+    # fortran_generic and a function returning a string
+    ["- decl: void gen(double arg)\n  fortran_generic:\n  - decl: (float arg)\n  - decl: (double arg)\n",
+     "- decl: const std::string& title()\n"],
+]
+
+
+def perdecl_candidates():
+    for group in PERDECL:
+        for k in range(len(group)):
+            for opt in ("literalinclude", "debug", "doxygen"):
+                def text(val):
+                    out = ""
+                    for j, d in enumerate(group):
+                        out += d
+                        if j == k:
+                            out += "  options:\n    %s: %s\n" % (opt, val)
+                    return out
+                yield {"opts": {}, "perdecl": text("true"), "perdecl_off": text("false"), "what": "%s on declaration %d" % (opt, k)}
 
 
 def candidates(seed, around=None):
     names = ["debug", "doxygen", "show_splicer_comments", "debug_index"]
+    if around and around.get("perdecl_first"):
+        for c in perdecl_candidates():
+            yield c
     for n in names:
         yield {"opts": {n: True}}
     yield {"opts": {"debug": True, "debug_index": True}}
@@ -109,6 +142,8 @@ def candidates(seed, around=None):
     yield {"opts": {"doxygen": True}, "brief": "one line", "ret": "\"line 1\\nline 2\""}
     yield {"opts": {}, "version_on": False, "version_off": True}
     yield {"opts": {"debug": True, "doxygen": True, "show_splicer_comments": True}}
+    for c in perdecl_candidates():
+        yield c
     for r in range(2, 5):
         for c in itertools.combinations(names, r):
             yield {"opts": dict((k, True) for k in c)}
